@@ -50,6 +50,9 @@ type c04Env struct {
 	// zzsym.Choice per call.
 	localPlan []int
 	folPlan   []int
+	// the behaviours an unscripted call chooses from (nil = all)
+	localChoices []int
+	folChoices   []int
 	// recovery behaviour, decided when recovery first reaches the port: 0 = decide by zzsym.Choice,
 	// 1 = works, 2 = fails (every probe submission refused / ReplicaStore.Load fails)
 	probeMode int
@@ -73,11 +76,14 @@ func (e *c04Env) portCalls() int {
 	return e.probes + e.fetches + e.loads + e.syncs + e.replaces + e.storeFetches + e.lookups + e.localSubmits + e.replicaSubmits
 }
 
-func (e *c04Env) next(plan *[]int, name string, n int) int {
+func (e *c04Env) next(plan *[]int, choices []int, name string, n int) int {
 	if len(*plan) > 0 {
 		v := (*plan)[0]
 		*plan = (*plan)[1:]
 		return v
+	}
+	if len(choices) > 0 {
+		return choices[zzsym.Choice(name, len(choices))]
 	}
 	return zzsym.Choice(name, n)
 }
@@ -197,7 +203,7 @@ func (e *c04Env) LookupCommands(_ context.Context, lookups []CommandLookup) []Co
 func (e *c04Env) submitLocal(_ context.Context, proposal durableProposal, complete func(durabilityCompletion)) error {
 	e.localSubmits++
 	e.lastLocal = proposal
-	mode := e.next(&e.localPlan, "local.mode", c04LocalModes)
+	mode := e.next(&e.localPlan, e.localChoices, "local.mode", c04LocalModes)
 	if mode == c04LocalSubmitError {
 		return &c04PortErr{}
 	}
@@ -237,7 +243,7 @@ func (e *c04Env) submitLocal(_ context.Context, proposal durableProposal, comple
 
 func (e *c04Env) submitReplica(_ context.Context, _ ch.NodeID, _ durableProposal, complete func(durabilityCompletion)) error {
 	e.replicaSubmits++
-	switch e.next(&e.folPlan, "follower.mode", c04FolModes) {
+	switch e.next(&e.folPlan, e.folChoices, "follower.mode", c04FolModes) {
 	case c04FolDurable:
 		e.folDurableAcks++
 		complete(durabilityCompletion{outcome: ch.AppendOutcomeDurable})
@@ -345,6 +351,14 @@ func c04Command(tag byte) ch.CommandID {
 	var id ch.CommandID
 	id[31] = tag
 	return id
+}
+
+// c04AssumeBarrierCommandFresh: the command id of the recovery barrier is a SHA-256 digest; under
+// the abstract hash it could coincide with one of the constant command ids 00..01 - 00..03 used by
+// the harness, which the real hash does not produce.
+func c04AssumeBarrierCommandFresh(b Authority) {
+	barrier, _ := recoveryBarrierContent(b)
+	zzsym.Assume(barrier != c04Command(1) && barrier != c04Command(2) && barrier != c04Command(3))
 }
 
 func c04SameVoters(a, b []ch.NodeID) bool {
@@ -588,11 +602,15 @@ func Harness_C04_InstallBarrier() {
 	env := &c04Env{}
 	l := c04NewLog(env, 2)
 	// history: authority A wrote one proposal that is durable and committed on every voter
-	a := c04Authority("A", 2)
-	zzsym.Assume(!a.WriteFence.Set())
+	a := c04AuthorityF("A", 2, 1)
 	env.localPlan = []int{c04LocalHonest}
 	env.folPlan = []int{c04FolDurable, c04FolDurable}
 	env.probeMode, env.loadMode = 1, 1
+	if !zzsym.Thorough() {
+		// the barrier round: the local write is durable or lost, a follower is durable or unreachable
+		env.localChoices = []int{c04LocalHonest, c04LocalLostUnwritten}
+		env.folChoices = []int{c04FolDurable, c04FolUnknown}
+	}
 	_, err := l.Install(context.Background(), a)
 	zzsym.Assert(err == nil, "Install(A) over the empty log failed")
 	first, err := l.Commit(context.Background(), Proposal{Key: c04Key, Expected: a.ID, CommandID: c04Command(1), Records: []ch.Record{c04Record("r1", a.ID.ChannelEpoch)}})
@@ -604,6 +622,7 @@ func Harness_C04_InstallBarrier() {
 	b := c04Authority("B", 1)
 	b.Voters, b.WriteQuorum = a.Voters, a.WriteQuorum
 	zzsym.Assume(c04Lex(b.ID, a.ID) > 0)
+	c04AssumeBarrierCommandFresh(b)
 	env.probeMode = 0 // probes of the second recovery are refused or answered
 
 	installed, err := l.Install(context.Background(), b)
@@ -732,6 +751,7 @@ func Harness_C04_TwoStep() {
 	b := c04Authority("B", 1)
 	b.Voters, b.WriteQuorum = a.Voters, a.WriteQuorum
 	zzsym.Assume(c04Lex(b.ID, a.ID) > 0)
+	c04AssumeBarrierCommandFresh(b)
 	env.probeMode = 0 // the second recovery either has its probes refused or succeeds
 	env.localPlan, env.folPlan = []int{c04LocalHonest}, []int{c04FolDurable, c04FolDurable} // a barrier round, if any, is durable
 	_, errB := l.Install(context.Background(), b)
